@@ -134,9 +134,15 @@ def run(ctx):
     ctx.check(len(aps) == 1 and fi.only_through(aps[0], g_ok), R2, 'filter:raw-copy-only-for-valid-entries', 'an invalid entry can be copied to the output verbatim', fi.loc(aps[0]) if aps else fi.where)
     if aps:
         a = fi.args(aps[0])
-        bv = fi.ref_of(a[0])
-        bd = fi.defs_of_var(bv) if bv else []
-        ok = len(bd) == 1 and bd[0][1] is not None and any(model.strip_targs(r).endswith('entry::begin') for r in fi.subtree_refs(bd[0][1])) and bv in fi.subtree_refs(a[1])
+        # append(begin-of-entry, end-of-entry - begin-of-entry), directly on the entry's fields or through locals initialised from them
+        r0 = set(model.strip_targs(r).rsplit('::', 2)[-2] + '::' + model.strip_targs(r).rsplit('::', 1)[-1] for r in q.deep_refs(fi, a[0]) if r.startswith('f:'))
+        r1 = set(model.strip_targs(r).rsplit('::', 2)[-2] + '::' + model.strip_targs(r).rsplit('::', 1)[-1] for r in q.deep_refs(fi, a[1]) if r.startswith('f:'))
+        from vlib import lin as _lin
+        S_ = _lin.Symb(fi)
+        l0, l1 = S_.lin(a[0]), S_.lin(a[1])
+        # length == X - Y with Y the very expression that is passed as the start, nothing added or subtracted
+        shape = l1.c == 0 and sorted(l1.t.values()) == [-1, 1] and l0.c == 0 and list(l0.t.values()) == [1] and l1.t.get(list(l0.t)[0]) == -1
+        ok = shape and 'entry::begin' in r0 and 'entry::end' not in r0 and {'entry::begin', 'entry::end'} <= r1
         ctx.check(ok, R2, 'filter:raw-copy-is-the-entry-range', 'copied range is not [entry.begin, entry.end)', fi.loc(aps[0]))
     sw = [j for j in fi.walk(L) if fi.N(j)['k'] == 'SwitchStmt']
     ctx.require(len(sw) == 1, 'C04.R2: escape switch not found')
@@ -144,9 +150,18 @@ def run(ctx):
              if fi.blocks[g[0]].term is not None and fi.contains(L, fi.blocks[g[0]].term)]
     emits = [i for i in fi.calls(sw[0]) if fi.N(i)['k'] == 'CXXOperatorCallExpr' and fi.N(i).get('op') == '+=']
     ctx.check(len(emits) >= 5 and all(fi.only_through(i, g_bad) for i in emits), R2, 'filter:escape-branch-only-for-invalid-entries', 'escaped emission reachable for valid entries', fi.loc(sw[0]))
-    cont = [j for j in fi.walk(L) if fi.N(j)['k'] == 'ContinueStmt']
-    g_rm = fi.gate_edges(lambda atom, pol: fi.N(atom)['k'] == 'BinaryOperator' and fi.N(atom).get('op') == '==' and any(r.endswith('remove_invalid') for r in fi.subtree_refs(atom)) and pol is True)
-    ctx.check(len(cont) == 1 and fi.only_through(cont[0], g_rm) and fi.only_through(cont[0], g_bad), R2, 'filter:remove-mode-drops-only-invalid-entries', 'remove mode can drop a valid entry', fi.where)
+    # a valid entry is never dropped: within one iteration, without taking an `entry is invalid` edge, the next iteration cannot be
+    # reached except through the verbatim copy
+    Ln = fi.N(L)
+    cb = fi.point_of(Ln['cond'])[0] if Ln.get('cond', -1) is not None and Ln.get('cond', -1) >= 0 and fi.point_of(Ln['cond']) else None
+    okd = cb is not None and bool(aps)
+    if okd:
+        starts = [s_ for (s_, lab) in fi.succ_edges(cb) if lab is True]
+        inc_b = fi.point_of(Ln['inc'])[0] if Ln.get('inc', -1) is not None and Ln.get('inc', -1) >= 0 and fi.point_of(Ln['inc']) else cb
+        for s_ in starts:
+            reach = fi.reachable_blocks(start=s_, cut_edges=[e for e in g_bad if len(e) == 4], cut_blocks=(q.blocks_of(fi, aps) | {cb}) - {s_})
+            okd = okd and inc_b not in reach and (cb not in reach or cb == s_)
+    ctx.check(okd, R2, 'filter:remove-mode-drops-only-invalid-entries', 'remove mode can drop a valid entry', fi.where)
 
     # ---------------- R3  (abstract interpretation of the escape switch for every byte)
     cvar = None
@@ -267,6 +282,30 @@ def run(ctx):
     pairw = [w for w in q.field_writes(vn, 'tag_data::pair') if True]
     g_eq = q.call_gate(vn, lambda i: vn.bcallee(i) == ANON + 'ascii_streq', True)      # also through a one-line predicate helper (seen through by cond_facts)
     ctx.check(bool(g_eq) and bool(pairw) and all(vn.only_through(w, g_eq) for w in pairw), R9, 'validate_nesting:pairing-only-on-equal-names', 'a closing tag is paired with an opening tag without the name comparison', vn.where)
+    # pairing is mutual: where an opening and a closing tag are paired, each one records the index of the other
+    def index_of_target(w):
+        """index variable of the element whose `pair` is written: parsed[k].tag.pair -> k; cur.tag.pair with entry &cur = parsed[i] -> i"""
+        lhs = vn.N(w)['ch'][0]
+        subs = [x for x in vn.walk(lhs) if vn.N(x)['k'] == 'CXXOperatorCallExpr' and vn.N(x).get('op') == '[]' and len(vn.N(x)['ch']) == 3]
+        if subs:
+            return vn.ref_of(vn.N(subs[0])['ch'][2])
+        for r in [r for r in vn.subtree_refs(lhs) if r.startswith('v:')]:
+            for i_ in vn.all_nodes():
+                if vn.N(i_)['k'] == 'DeclStmt':
+                    for d in vn.N(i_)['decls']:
+                        if d['ref'] == r and d.get('isref') and d.get('init') is not None:
+                            subs = [x for x in vn.walk(d['init']) if vn.N(x)['k'] == 'CXXOperatorCallExpr' and vn.N(x).get('op') == '[]' and len(vn.N(x)['ch']) == 3]
+                            if subs:
+                                return vn.ref_of(vn.N(subs[0])['ch'][2])
+        return None
+    byblock = {}
+    for w in pairw:
+        byblock.setdefault(vn.point_of(w)[0], []).append(w)
+    okm = bool(byblock)
+    for b_, ws in sorted(byblock.items()):
+        rel = set((index_of_target(w), vn.ref_of(vn.N(w)['ch'][1])) for w in ws)
+        okm = okm and len(rel) == 2 and None not in [x for pr in rel for x in pr] and all((b2, a2) in rel for (a2, b2) in rel) and all(a2 != b2 for (a2, b2) in rel)
+    ctx.check(okm, R9, 'validate_nesting:pairing-is-mutual', 'a paired tag does not record the index of its partner (the filter then keeps one end of a rejected pair)', vn.where)
     ctx.floor(R1, 30)
     ctx.floor(R2, 4)
     ctx.floor(R6, 18)
